@@ -22,6 +22,30 @@ reg("C18",
     "Trusted: the 12-line reference encoder ref_tbcd; digit strings only (no TBCD special characters).",
     "exhaustive enumeration + property-based round-trip/differential testing", "DESIGN.md#c18")
 
+reg("C01",
+    "Property-based differential test: generated logical content (all header field widths; every dictionary class swept with "
+    "in-domain values over all four length residues; generic AVPs; Grouped nesting to depth 4; five ways of adding AVPs; all 50 "
+    "typed command classes) is serialised by bromelia and by an independent struct-based RFC 6733 encoder; byte strings, "
+    "per-AVP encodings and Message Length must agree exactly.",
+    "Trusted: vf/refcodec.py (40 lines), ref/avp_dictionary.json (code/vendor/default flags per class), the per-type value table in "
+    "vf/gens.py. Sampled, not exhaustive; constructions the library refuses are discards. Grouped-from-bytes members colliding with "
+    "a dictionary pair get default flags (known finding C02 excluded by construction).",
+    "property-based differential testing against a reference encoder (Hypothesis)", "DESIGN.md#c01")
+reg("C02",
+    "Property-based round-trip/differential test: well-formed streams are produced by the reference encoder from generated wire "
+    "forests (any flag byte, known/unknown pairs, nested Grouped, 1-4 messages); every decoded field is compared with the generated "
+    "value and the re-encoding with the original bytes.",
+    "Trusted: reference encoder and dictionary. One root cause is a listed known finding (decode re-flags known AVPs); its "
+    "signatures are exact so any other flag/data deviation is still reported.",
+    "property-based round-trip testing with generator-side expected values (Hypothesis)", "DESIGN.md#c02")
+reg("C09",
+    "Property-based test over all 50 typed command classes x generated argument subsets (optionals, untabled AVP objects, extra "
+    "keyword AVPs, omitted mandatory argument) against a reference command table (code/Application-ID/R from the specs) and the "
+    "reference encoder, plus serialise/decode round trip.",
+    "Trusted: ref/commands.json (wire identity hand-written from the specs and cross-checked; argument tables snapshotted from the "
+    "pinned tree), reference dictionary/encoder.",
+    "property-based testing against a reference command table (Hypothesis)", "DESIGN.md#c09")
+
 ALL = [f"C{i:02d}" for i in range(1, 21)]
 
 def main():
